@@ -1091,29 +1091,29 @@ func writeEvidence(a, fa *agg, nViol, nClasses int) {
 	}
 	sort.Strings(zero)
 	cov := map[string]any{
-		"evaluations":         a.runs + fa.runs,
-		"distinct_nontrivial": len(a.digests),
-		"rule":                m.Rule,
-		"samples":             samples,
-		"controlled_runs":     a.runs,
+		"evaluations":            a.runs + fa.runs,
+		"distinct_nontrivial":    len(a.digests),
+		"rule":                   m.Rule,
+		"samples":                samples,
+		"controlled_runs":        a.runs,
 		"free_running_race_runs": fa.runs,
-		"nontrivial_runs":     a.nontriv,
+		"nontrivial_runs":        a.nontriv,
 		"distinct_digests_all_runs_sum_over_workers": a.allDig,
-		"distinct_abstract_states": len(a.states),
-		"driver_steps":        a.steps,
-		"simulated_seconds":   float64(a.simUs) / 1e6,
-		"runs_per_hour":       float64(a.runs+fa.runs) / wall * 3600,
-		"fault_kinds_fired":   a.fired,
-		"probes":              a.probes,
-		"probes_unreached":    zero,
-		"determinism_rechecks": a.rechecked,
-		"determinism_mismatches": len(a.nondet),
-		"worker_processes":    a.procs + fa.procs,
-		"workers":             nwork,
-		"components_real":     m.Real,
-		"components_simulated": m.Simulated,
-		"violation_classes":   nClasses,
-		"technique":           m.Technique,
+		"distinct_abstract_states":                   len(a.states),
+		"driver_steps":                               a.steps,
+		"simulated_seconds":                          float64(a.simUs) / 1e6,
+		"runs_per_hour":                              float64(a.runs+fa.runs) / wall * 3600,
+		"fault_kinds_fired":                          a.fired,
+		"probes":                                     a.probes,
+		"probes_unreached":                           zero,
+		"determinism_rechecks":                       a.rechecked,
+		"determinism_mismatches":                     len(a.nondet),
+		"worker_processes":                           a.procs + fa.procs,
+		"workers":                                    nwork,
+		"components_real":                            m.Real,
+		"components_simulated":                       m.Simulated,
+		"violation_classes":                          nClasses,
+		"technique":                                  m.Technique,
 	}
 	if fa.runs > 0 {
 		cov["free_running_fault_kinds_fired"] = fa.fired
